@@ -57,8 +57,13 @@ class Model(object):
   def __repr__(self): return "Model(%s)" % self.name
 
 
+class SelfModel(Model):
+  """A Model stored as a field of a modelled object; it receives that object as first argument
+  (after the interpreter) when fetched through attribute access."""
+
+
 class Ctx(object):
-  def __init__(self, preset=(), concrete=False, solver_timeout_ms=3000):
+  def __init__(self, preset=(), concrete=False, solver_timeout_ms=400):
     self.preset = list(preset)
     self.decisions = []
     self.assumptions = []
@@ -69,6 +74,7 @@ class Ctx(object):
     self.timeout = solver_timeout_ms
     self.assumed_contracts = set()     # names of Models actually used on this path
     self.feas_checks = 0
+    self._qf_flags = []
 
   def const(self, name, sort):
     n = self.counter.get(name, 0)
@@ -91,9 +97,21 @@ class Ctx(object):
     self.assumptions.append(t)
 
   def _feasible(self, t):
+    """Path pruning only (an over-approximation is sound): first with the quantifier-free
+    assumptions (milliseconds), then, if still feasible, with everything under a short timeout."""
     self.feas_checks += 1
+    from .solve import _has_quantifier
+    while len(self._qf_flags) < len(self.assumptions):
+      self._qf_flags.append(not _has_quantifier(self.assumptions[len(self._qf_flags)]))
     s = z3.Solver()
     s.set("timeout", self.timeout)
+    s.add(*[a for a, qf in zip(self.assumptions, self._qf_flags) if qf])
+    s.add(t)
+    if s.check() == z3.unsat: return False
+    if all(self._qf_flags): return True
+    s = z3.Solver()
+    s.set("timeout", min(self.timeout, 150))
+    s.set("smt.mbqi", False); s.set("smt.auto_config", False)
     s.add(*self.assumptions)
     s.add(t)
     return s.check() != z3.unsat
@@ -158,6 +176,7 @@ class Interp(object):
     self.depth = 0
     self.old_env = {}
     self.uf_cache = {}
+    self.in_ghost = False
     from . import models
     self.models = models
 
@@ -198,6 +217,8 @@ class Interp(object):
     if isinstance(v, (SSet, SMap)):
       self.unsupported("truthiness of a symbolic set/map")
     if isinstance(v, ObjVal):
+      if "__truth__" in v.fields:
+        return v.fields["__truth__"](self, v)
       for dunder in ("__bool__", "__len__"):
         m = self.lookup_method(v, dunder)
         if m is not None and not isinstance(m, tuple):
@@ -343,6 +364,8 @@ class Interp(object):
         self.raise_(TypeError, str(e), node=node)
     if isinstance(c, Model) and getattr(c, "contains", None):
       return c.contains(self, x)
+    if isinstance(c, SOpq) and self.contract and ("in", c.kind) in self.contract.hooks:
+      return self.contract.hooks[("in", c.kind)](self, c, x, node)
     if isinstance(c, (SStr, str)) and isinstance(x, (SStr, str)):
       return z3.Contains(V.Str.leaves(c)[0], V.Str.leaves(x)[0])
     if isinstance(c, ObjVal):
@@ -574,7 +597,11 @@ class Interp(object):
 
   def getattr(self, base, name, node=None):
     if isinstance(base, ObjVal):
-      if name in base.fields: return base.fields[name]
+      if name in base.fields:
+        v = base.fields[name]
+        if isinstance(v, SelfModel):
+          return Model(v.name, lambda ip, *a, **k: v.fn(ip, base, *a, **k))
+        return v
       m = self.lookup_method(base, name)
       if m is None:
         self.unsupported("attribute %s of modelled %s" % (name, base.cls_name), node)
@@ -587,6 +614,9 @@ class Interp(object):
       if not self.spec and self.ctx.decide(base.isnone):
         self.raise_(AttributeError, "'NoneType' object has no attribute %r" % name, node=node)
       return self.getattr(base.val, name, node)
+    if isinstance(base, SOpq) and self.contract and \
+        ("attr", base.kind, name) in self.contract.hooks:
+      return self.contract.hooks[("attr", base.kind, name)](self, base)
     if isinstance(base, Sym) or isinstance(base, (list, tuple, dict, set, str)):
       return MethodRef(base, name)
     try:
@@ -616,7 +646,7 @@ class Interp(object):
         return base.at(i + n)
       self.raise_(IndexError, "list index out of range", node=node)
     if isinstance(base, SMap):
-      if self.spec: return base.at(idx)
+      if self.spec or self.in_ghost: return base.at(idx)
       if self.ctx.decide(base.has(idx)):
         return base.at(idx)
       self.raise_(KeyError, idx, node=node)
@@ -647,6 +677,8 @@ class Interp(object):
     if isinstance(base, Model) and getattr(base, "getitem", None):
       return base.getitem(self, idx)
     if isinstance(base, ObjVal):
+      if isinstance(base.fields.get("__getitem__"), SelfModel):
+        return base.fields["__getitem__"].fn(self, base, idx)
       m = self.lookup_method(base, "__getitem__")
       if m is not None: return self.call(m, [idx], {})
     if not is_symbolic(base) and not is_symbolic(idx):
@@ -711,6 +743,12 @@ class Interp(object):
     if isinstance(fn, types.MethodType) and self.in_repo(fn.__func__):
       return self.call_function(self.func_from_native(fn.__func__), [fn.__self__] + list(args),
                                 kwargs, node)
+    if isinstance(fn, type) and issubclass(fn, tuple) and hasattr(fn, "_fields") and \
+        (any(is_symbolic(a) or isinstance(a, ObjVal) for a in args) or
+         any(is_symbolic(a) for a in kwargs.values())):
+      vals = dict(zip(fn._fields, args)); vals.update(kwargs)
+      if set(vals) != set(fn._fields): self.raise_(TypeError, "bad namedtuple arguments")
+      return ObjVal(fn.__name__, vals, None)
     if isinstance(fn, type) and issubclass(fn, BaseException):
       if any(isinstance(a, StarArgs) for a in args): self.unsupported("exception(*sym)", node)
       return ExcVal(fn, tuple(args))
@@ -798,8 +836,13 @@ class Interp(object):
     sub = Frame(fr.func, self, parent=fr)
     bound = []
     for n in names:
-      c = z3.Int("%s?%d" % (n, self._qid()))
-      bound.append(c); sub.env[n] = SInt(c)
+      if "__" in n:
+        kind = n.split("__")[1]
+        c = z3.Const("%s?%d" % (n, self._qid()), V.opaque_sort(kind))
+        bound.append(c); sub.env[n] = SOpq(c, kind)
+      else:
+        c = z3.Int("%s?%d" % (n, self._qid()))
+        bound.append(c); sub.env[n] = SInt(c)
     old = self.spec; self.spec = True
     try:
       c = self._bt(self.truth(self.ev(cond, sub)))
@@ -1130,6 +1173,14 @@ class Interp(object):
     for g, (shape, init) in spec.ghost_init.items():
       fr.store(g, self.ghost_init_value(shape, init, fr))
     if it is not None and idx_name: fr.store(idx_name, 0)
+    # locals with a declared shape: concrete containers become values of that shape (exactly)
+    for name, sh in spec.locals.items():
+      if name in fr.env and isinstance(fr.env[name], (list, dict)) and \
+          not isinstance(fr.env[name], Sym):
+        try:
+          fr.env[name] = sh.build(sh.leaves(fr.env[name]))
+        except Unsupported:
+          pass
     # 1. invariant holds on entry
     for iname, clause in spec.invariants.items():
       g = self.eval_spec(clause, fr.flat_env(), old_env=self.old_env)
@@ -1198,6 +1249,10 @@ class Interp(object):
   def ghost_init_value(self, shape, init, fr):
     if init is None:
       return self.ctx.fresh(shape, "ghost")
+    if isinstance(init, dict):        # a total ghost map with some entries fixed
+      m = self.ctx.fresh(shape, "ghost")
+      for k, v in init.items(): m = m.store(k, v)
+      return m
     if isinstance(init, str):
       old = self.spec; self.spec = True
       try:
@@ -1210,7 +1265,11 @@ class Interp(object):
   def exec_ghost(self, src, fr):
     """Ghost update code: ordinary statements of the subset, run on the frame's variables."""
     tree = ast.parse(_dedent(src))
-    self.exec_block(tree.body, fr)
+    self.in_ghost = True        # ghost maps are total: reads never raise KeyError
+    try:
+      self.exec_block(tree.body, fr)
+    finally:
+      self.in_ghost = False
 
 
 class ExcVal(object):
